@@ -279,7 +279,7 @@ impl TypedProp for C13 {
     fn info(&self) -> PropInfo {
         PropInfo {
             level: "exploration",
-            rule: "pure part (exhaustive per table): for each override table (2 hand-written + tables drawn by the seed over 4 non-modifier keys and all subsets of the 8 modifiers) every ordered list of up to 4 distinct keys of the 12-key universe is given to the real Overrides::override_keys (table compiled by the real parser) and the resulting key set compared with the reference (most modifiers wins, modifiers and key replaced by the outputs, other keys untouched). Where a modifier is listed after the key the statement does not say whether it counts: both readings are accepted there. Pipeline part: random press/release histories over the 12 keys through the whole state machine, override-release-on-activation on/off: at every quiescent point the OS key set equals the reference applied to the keys the layout holds; at every millisecond a key that goes down at the OS without having been physically down in the 8 ms before is the output of an override whose whole input combination was physically down in that window; nothing is down at the end. Non-trivial: >= 2 overrides share the non-modifier key of the list / history, or a modifier outside every matching combination is held. Distinct: hash of (table, list | history).",
+            rule: "pure part (exhaustive per table): for each override table (2 hand-written + tables drawn by the seed over 4 non-modifier keys and all subsets of the 8 modifiers) every ordered list of up to 4 distinct keys of the 12-key universe is given to the real Overrides::override_keys (table compiled by the real parser) and the resulting key set compared with the reference (most modifiers wins, modifiers and key replaced by the outputs, other keys untouched). Where a modifier is listed after the key the statement does not say whether it counts: both readings are accepted there. Pipeline part: random press/release histories over the 12 keys (half of them over the keys of one override's combination plus one more modifier and one more key only, so that the combination is formed and abandoned repeatedly) through the whole state machine, override-release-on-activation on/off: at every quiescent point the OS key set equals the reference applied to the keys the layout holds; at every millisecond a key that goes down at the OS without having been physically down in the 8 ms before is the output of an override whose whole input combination was physically down in that window; nothing is down at the end. Non-trivial: >= 2 overrides share the non-modifier key of the list / history, or a modifier outside every matching combination is held. Distinct: hash of (table, list | history).",
             assumptions: vec!["ties between overrides with equally many modifiers are not decided by the statement: any of them is accepted".into()],
             extra: BTreeMap::new(),
         }
@@ -309,9 +309,32 @@ impl TypedProp for C13 {
                 invalid: None,
             });
         }
-        Gen::Strat(0)
+        Gen::Strat((idx % 2) as u32)
     }
-    fn strategy(&self, _tier: Tier, _key: u32) -> BoxedStrategy<OCase> {
+    fn strategy(&self, _tier: Tier, key: u32) -> BoxedStrategy<OCase> {
+        if key == 1 {
+            // focused histories: only the keys of one override's input combination, one more modifier and
+            // one more key, so that the combination is formed, abandoned (modifier first / key first) and
+            // formed again many times within one history
+            return (table_strategy(), any::<u16>(), any::<u16>(), any::<bool>())
+                .prop_flat_map(|(table, pick_e, pick_x, r)| {
+                    let mut focus: Vec<u16> = vec![];
+                    if let Some(e) = table.get(crate::engine::pick(pick_e, table.len().max(1))) {
+                        focus.extend((0..8).filter(|b| e.in_mods & (1 << b) != 0).map(|b| code_of(MODS[b])));
+                        focus.push(code_of(INS[e.in_key % INS.len()]));
+                    }
+                    let extra_mod = code_of(MODS[crate::engine::pick(pick_x, 8)]);
+                    let extra_key = code_of(INS[crate::engine::pick(pick_x / 8, 4)]);
+                    for k in [extra_mod, extra_key] {
+                        if !focus.contains(&k) {
+                            focus.push(k);
+                        }
+                    }
+                    (Just(table), crate::gen::hist::consistent_history(focus, vec![0, 1, 1, 2, 3, 12], 4..30), Just(r))
+                })
+                .prop_map(|(table, hist, r)| OCase { invalid: None, table, list: None, hist, release_on_activation: r })
+                .boxed();
+        }
         let keys: Vec<u16> = MODS.iter().chain(INS.iter()).map(|n| code_of(n)).collect();
         (table_strategy(), crate::gen::hist::consistent_history(keys, vec![0, 1, 1, 2, 3], 1..24), any::<bool>(), prop_oneof![19 => Just(None), 1 => (0u8..4).prop_map(Some)])
             .prop_map(|(table, hist, r, invalid)| OCase {
